@@ -163,9 +163,9 @@ func (c *Collector) NontrivialKey(key interface{}) {
 	c.mu.Unlock()
 }
 
-func (c *Collector) Label(l string)            { c.mu.Lock(); c.labels[l]++; c.mu.Unlock() }
-func (c *Collector) Exclude(finding string)    { c.mu.Lock(); c.excluded[finding]++; c.mu.Unlock() }
-func (c *Collector) SetExhaustive(box string)  { c.mu.Lock(); c.exhaustive[box] = true; c.mu.Unlock() }
+func (c *Collector) Label(l string)                { c.mu.Lock(); c.labels[l]++; c.mu.Unlock() }
+func (c *Collector) Exclude(finding string)        { c.mu.Lock(); c.excluded[finding]++; c.mu.Unlock() }
+func (c *Collector) SetExhaustive(box string)      { c.mu.Lock(); c.exhaustive[box] = true; c.mu.Unlock() }
 func (c *Collector) Extra(k string, v interface{}) { c.mu.Lock(); c.extra[k] = v; c.mu.Unlock() }
 
 // Sample keeps up to 6 sample cases.
